@@ -277,6 +277,8 @@ def explore(ctx, tier, search=False):
         labels = sorted(set(b["label"] for b in _BREAKS))
         for label in labels:
             first = [b for b in _BREAKS if b["label"] == label]
+            if any(d and label in d["function"] for d in ctx.corr_disagreements):
+                continue
             ctx.corr_disagreements.append({
                 "function": "ownership discipline: module-level state %s written while serving a request" % label,
                 "line": first[0]["url"], "impl": "store into %s (%d requests did)" % (label, len(first)),
